@@ -24,19 +24,26 @@ Section Handler.
 
   Definition err_code (e : err) : N := match e with EHttp c => c | EExc => 500%N end.
 
-  (* Handler::onInput for one read *)
-  Definition on_input (maxsz : nat) (st : pstate) (seg : bytes) : action * pstate :=
-    match feed maxsz st seg with
-    | None => (ARespond 413, reset_request st)
-    | Some st1 =>
-        match parse typed_other set_cookie KRequest st1 with
-        | (PAgain, st2) => (AWait, st2)
-        | (PDone, st2) => (AHandler (p_msg st2), reset_request st2)
-        | (PErr e, st2) => (ARespond (err_code e), reset_request st2)
-        end
+  (* One pass of the loop in Handler::onInput over [seg].  No more of it is fed than the size limit leaves room for
+     (ArrayStreamBuf::room); what does not fit is refused with 413 unless the request ends within what fits.  The
+     second component is the parser afterwards, the third what lies behind a complete request: ParserBase::unparsed()
+     followed by the part of the read that was not fed. *)
+  Definition on_input_rest (maxsz : nat) (st : pstate) (seg : bytes) : action * pstate * bytes :=
+    let room := maxsz - length (p_buf st) in
+    let more := skipn room seg in
+    match parse typed_other set_cookie KRequest (feed_raw st (firstn room seg)) with
+    | (PAgain, st2) => match more with
+                       | [] => (AWait, st2, [])
+                       | _ => (ARespond 413, reset_request st2, [])
+                       end
+    | (PDone, st2) => (AHandler (p_msg st2), reset_request st2, skipn (p_cur st2) (p_buf st2) ++ more)
+    | (PErr e, st2) => (ARespond (err_code e), reset_request st2, [])
     end.
 
-  (* a connection: successive reads on one parser *)
+  Definition on_input (maxsz : nat) (st : pstate) (seg : bytes) : action * pstate := fst (on_input_rest maxsz st seg).
+  Definition leftover (maxsz : nat) (st : pstate) (seg : bytes) : bytes := snd (on_input_rest maxsz st seg).
+
+  (* a connection whose reads never hold anything behind the end of a request: one pass per read *)
   Fixpoint connection (maxsz : nat) (st : pstate) (reads : list bytes) : list action * pstate :=
     match reads with
     | [] => ([], st)
@@ -46,17 +53,40 @@ Section Handler.
         (a :: acts, st2)
     end.
 
-  (* Handler::onInput on a live connection: once a request has been refused while it was read (413, 4xx/5xx from the
-     parser) the connection takes no further input - what follows is the rest of the refused request, not the start of
-     a new one (fix of the third seeding round; before, [connection] above was also the server's behaviour) *)
-  Fixpoint serve (maxsz : nat) (st : pstate) (reads : list bytes) : list action :=
+  (* Handler::onInput for one read: the loop goes on while a complete request leaves bytes behind (a client that
+     pipelines).  [None] = out of fuel (excluded by on_read_fuel: every pass that completes a request consumes a byte). *)
+  Fixpoint on_read (fuel : nat) (maxsz : nat) (st : pstate) (seg : bytes) {struct fuel}
+    : option (list action * pstate) :=
+    let '(a, st1) := on_input maxsz st seg in
+    match a, leftover maxsz st seg with
+    | AHandler _, _ :: _ =>
+        match fuel with
+        | O => None
+        | S f => match on_read f maxsz st1 (leftover maxsz st seg) with
+                 | Some (acts, st2) => Some (a :: acts, st2)
+                 | None => None
+                 end
+        end
+    | _, _ => Some ([a], st1)
+    end.
+
+  Definition is_respond (a : action) : bool := match a with ARespond _ => true | _ => false end.
+
+  (* Handler::onInput on a live connection, read by read: once a request has been refused while it was read (413,
+     4xx/5xx from the parser) the connection takes no further input - what follows is the rest of the refused request,
+     not the start of a new one *)
+  Fixpoint serve (maxsz : nat) (st : pstate) (reads : list bytes) : option (list action) :=
     match reads with
-    | [] => []
+    | [] => Some []
     | s :: rest =>
-        let '(a, st1) := on_input maxsz st s in
-        match a with
-        | ARespond _ => a :: map (fun _ => AWait) rest
-        | _ => a :: serve maxsz st1 rest
+        match on_read (S (length (p_buf st) + length s)) maxsz st s with
+        | None => None
+        | Some (acts, st1) =>
+            if existsb is_respond acts then Some (acts ++ map (fun _ => AWait) rest)
+            else match serve maxsz st1 rest with
+                 | Some more => Some (acts ++ more)
+                 | None => None
+                 end
         end
     end.
 End Handler.
